@@ -402,7 +402,7 @@ def run(ctx):
     logging.getLogger("dtproblog").setLevel(logging.ERROR)
     tmax = ctx.budget(60, 900)
     for stream, P in cases:
-        if time.time() - ctx.t0 > tmax and not ctx.replay_in:
+        if time.time() - ctx.t_work > tmax and not ctx.replay_in:
             ctx.count("not-run:time-budget")
             continue
         try:
@@ -466,13 +466,16 @@ def run(ctx):
     t_shrink = time.time()
     for key, (stream, P, what, sig) in failed.items():
         def still(Q, sig=sig, stream=stream):
-            rr = tu.with_timeout(15, (lambda q: dt_case(q, want_lines=False)) if stream == "dt" else map_case, Q)
+            try:
+                rr = tu.with_timeout(15, (lambda q: dt_case(q, want_lines=False)) if stream == "dt" else map_case, Q)
+            except tu.CaseTimeout:
+                return False
             return (not rr["skip"]) and any(s == sig for _, s in rr["fails"])
         try:
             small = tu.shrink_program(P, still, deadline=t_shrink + ctx.budget(30, 300)) if not ctx.replay_in else P
-            rr = dt_case(small, want_lines=False) if stream == "dt" else map_case(small)
+            rr = tu.with_timeout(60, (lambda q: dt_case(q, want_lines=False)) if stream == "dt" else map_case, small)
             what2 = next((w for w, s in rr["fails"] if s == sig), what)
-        except Exception:
+        except (Exception, tu.CaseTimeout):
             small, what2 = P, what
         ctx.fail("%s | program: %s" % (what2, tu.to_src(small).replace("\n", " ")),
                  {"stream": stream, "program": tu.P_to_json(small), "source": tu.to_src(small)}, sig)
